@@ -34,6 +34,8 @@ type ModelCase struct {
 	First bool `json:"first,omitempty"`
 	// UseDb: the application is served by resource.DbResource over a memdb
 	UseDb bool `json:"use_db,omitempty"`
+	// UsePo: templates and labels are served by resource.PoResource over gettext catalogues
+	UsePo bool `json:"use_po,omitempty"`
 }
 
 var modelModes = []app.Mode{{Kind: "long"}, {Kind: "long"}, {Kind: "persist", Backend: "mem"}}
